@@ -23,10 +23,11 @@ TARGETS = ['WcModel.Properties.C07']
 
 BASE = ['a', 'b', 'ab', '*', 'a*', '*.txt', '?', '[ab]', '[!a]', '.h*', '.*', '*b', '@(a|b)', '!(a)', '!(a|b)', '*(a|b).t',
         '+(a)', 'a|b', 'a|*.txt', '{a,b}', '{a,b}*', 'x{1..3}', '{a,b}|c', 'a\\|b', '[|]', '[a|b]', '@(a|b)|c', '**', 'a/*',
-        '**/b', '*/', 'd/*.txt', 'a\\*', '', '{a,!b}', 'a|!b', 'a|-b', '(a)', '(a|b)', '@(a|!b)', '.h|a', '{.h,a}*']
+        '**/b', '*/', 'd/*.txt', 'a\\*', '', '{a,!b}', 'a|!b', 'a|-b', '(a)', '(a|b)', '@(a|!b)', '.h|a', '{.h,a}*',
+        '@(a\\)|b)', '+(\\)|c)', '@(a|\\))', '@(a\\|b)', '?(\\(|a)|b']
 SIGN = ['', '', '', '', '!', '!', '-', '\\!', '\\-', '!!', '!-', '-!']
 NAMES = ['a', 'b', 'c', 'ab', 'a.txt', 'b.txt', '.h', '.hx', 'a/', 'a/b', 'd/a.txt', 'd/.h', 'x1', 'x3', '!a', '-a', 'a|b',
-         '|', '!b', 'a*', '(a)', 'a.t', 'ab.t', '.', 'd/', '!(a)']
+         '|', '!b', 'a*', '(a)', 'a.t', 'ab.t', '.', 'd/', '!(a)', 'a)', ')', 'b)', '))', '(', 'a|b)']
 
 
 # the sign grid: every way a pattern can start, under every subset of the flags that decide its sign
@@ -69,9 +70,21 @@ def is_dir_name(n: str) -> bool:
 class Oracle:
     """the property: list = OR of single-pattern inclusion matches AND NOT OR of exclusion matches (DOTMATCH forced)"""
 
-    def __init__(self, w: K.World):
+    def __init__(self, w: K.World, drv=None):
         self.w = w
+        self.drv = drv          # the Lean model's WcSplit (Split.wcSplit; C07's split theorems are about it) decides the pieces
         self.cache: dict = {}
+        self.split_cache: dict = {}
+
+    def split(self, it, iflags: int):
+        W = self.w.W
+        if self.drv is None or isinstance(it, bytes):
+            return W.WcSplit(it, iflags).split()
+        key = (it, iflags)
+        if key not in self.split_cache:
+            o = self.drv.ask('split', iflags, common.enc(it))
+            self.split_cache[key] = [common.dec(x) for x in o.split(' ')[1:]] if o.startswith('ok') else W.WcSplit(it, iflags).split()
+        return self.split_cache[key]
 
     def single(self, module: str, name, pat, sf: int) -> bool:
         key = (module, name, pat, sf)
@@ -91,7 +104,7 @@ class Oracle:
         for p in pats:
             items = list(bracex.iexpand(p, keep_escapes=True, limit=0)) if flags & W.BRACE else [p]
             for it in items:
-                out.extend(W.WcSplit(it, iflags).split() if flags & W.SPLIT else [it])
+                out.extend(self.split(it, iflags) if flags & W.SPLIT else [it])
         return out
 
     def verdicts(self, module: str, pats, excl, flags: int, names):
@@ -223,9 +236,9 @@ def run(ck: Check) -> int:
     def s_prop(sr):
         sr.note = ('the property on every K4 call: list result == (some inclusion piece matches as a single pattern) and not (some '
                    'exclusion piece matches as a single pattern with DOTMATCH) [and not a directory name under NODIR]; pieces by the '
-                   'real bracex / WcSplit, signs by an independent rule; NEGATEALL default = `**`; plus order / duplication invariance; '
+                   'real bracex and the Lean model WcSplit (tied by K3; the split theorems are about it), signs by an independent rule; NEGATEALL default = `**`; plus order / duplication invariance; '
                    'on the sign grid additionally: inline exclusion == the same call with exclude=[body]')
-        orc = Oracle(w)
+        orc = Oracle(w, drv)
         W = w.W
         for api, pats, excl, flags, isb, real, agree, names, grid in records:
             if real['kind'] != 'ok' or real.get('bits') is None:
